@@ -246,3 +246,5 @@ def mtl_structure(t):
 
 CHECKS = [mtl_structure(2), mtl_structure(3)]
 THOROUGH_CHECKS = [mtl_check(1)]
+
+VALIDATE_LAYOUT_PRIMS = True  # [V] the layout primitive contracts are sampled against real torch on every run
